@@ -330,6 +330,7 @@ package vm
 
 //@ func Execute
 //@ props C04 C08 C02 C09
+//@ traced script -> result.1
 //@ requires env != nil
 //@ modifies *
 
